@@ -269,6 +269,21 @@ func identifiers(seed string) []string {
 	return out
 }
 
+// identifierLike: the position is a name, column, table, integration reference,
+// column type, unique/index/notification entry — something a statement may
+// name.  The others (urls, filter operators and arguments, event and input
+// names and ABI types) get one marker per position in the quick tier.
+func identifierLike(path string) bool {
+	k := path[strings.LastIndex(path, "/")+1:]
+	switch {
+	case strings.Contains(path, "/filter_arg/"), k == "url", k == "pg_url", k == "filter_op", strings.Contains(path, "/urls/"):
+		return false
+	case strings.Contains(path, "/event/") && (k == "name" || k == "type"):
+		return false
+	}
+	return true
+}
+
 func run(c lib.Cfg) error {
 	slog.SetDefault(slog.New(slog.NewTextHandler(io.Discard, nil)))
 	out := lib.NewOut("C15", c.Out, header, "run", 120)
@@ -354,7 +369,11 @@ func run(c lib.Cfg) error {
 		npos += len(pos)
 		for _, p := range pos {
 			idxPos = strings.Contains(p.Path, "/index/")
-			for _, m := range pick() {
+			ms := pick()
+			if !c.Thorough() && !idxPos && !identifierLike(p.Path) {
+				ms = ms[:1] // quick tier: one (hostile) marker on positions that no statement names
+			}
+			for _, m := range ms {
 				descs = append(descs, desc{Stream: "file-pos", Seed: seed, Path: p.Path, Marker: m})
 			}
 			idxPos = false
@@ -372,7 +391,14 @@ func run(c lib.Cfg) error {
 					continue
 				}
 				idxPos = strings.Contains(p.Path, "/index/")
-				for _, m := range pick() {
+				ms := pick()
+				if !c.Thorough() && !idxPos {
+					ms = ms[:2] // quick tier: one hostile and one accepted marker per dashboard position
+					if !identifierLike(p.Path) {
+						ms = ms[:1]
+					}
+				}
+				for _, m := range ms {
 					descs = append(descs, desc{Stream: "dash-pos", Seed: seed, Path: p.Path, Marker: m, Ig: ig})
 				}
 				idxPos = false
